@@ -28,8 +28,9 @@ static void check_kick(const std::string& kase, KickMap& km, psptr in, psptr out
         uint64_t h = mcx::fnv(dout, sizeof(float) * n * n * nb, mcx::fnvs(kase));
         R.eval(kase + " c=" + std::to_string(c), h, false);
         for (unsigned b = 0; b < nb; b++) for (unsigned r = 0; r < n; r++) {
-            // x-kicks share bunch 0's field by design (the drift is the same for every bunch)
-            float a = yaxis ? off[b * n + r] : off[r];
+            // x-kicks share bunch 0's field by design (the drift is the same for every bunch); y-kick maps whose kick is
+            // bunch independent (RF) declare that through _lastbunch and share the table of bunch 0 as well
+            float a = yaxis ? off[std::min(b, (unsigned)km._lastbunch) * n + r] : off[r];
             if (!(std::fabs(a) <= lim)) continue;
             int k = (int)std::floor(a);
             int lo = (int)c - k - (int)(it - 1) + cc, hi = (int)c - k + cc;   // destination cells of source c
@@ -55,7 +56,7 @@ static void check_kick(const std::string& kase, KickMap& km, psptr in, psptr out
         std::fill(din, din + (size_t)n * n * nb, 0.f);
         double tot = 0, mag = 0;
         for (unsigned b = 0; b < nb; b++) for (unsigned r = 0; r < n; r++) {
-            float a = yaxis ? off[b * n + r] : off[r];
+            float a = yaxis ? off[std::min(b, (unsigned)km._lastbunch) * n + r] : off[r];
             if (!(std::fabs(a) <= lim)) continue;
             int k = (int)std::floor(a);
             for (unsigned c = 1; c + 2 <= n; c++) {
